@@ -160,7 +160,7 @@ def prim_py_value(kind, o):
     if kind == "Boolean":
         return bool(o.value)
     if kind == "TextString":
-        return [ord(c) for c in o.value]
+        return o.value.encode("utf-8", "surrogatepass").hex()
     if kind == "ByteString":
         return bytes(o.value).hex()
     raise KeyError(kind)
@@ -190,7 +190,8 @@ def big_pool(rng, extra):
 
 TEXT_ALPHABET = "abcXYZ019 _-/.:@"
 NON_ASCII = ["é", "héllo", "üüü", "日本", "\x7f", "\x80", "a€b", "\U0001f511",
-             "naïve-key", "ÿ" * 8]
+             "naïve-key", "ÿ" * 8, "\u07ff", "\u0800", "\ud7ff", "\ue000", "\uffff", "\U00010000", "\U0010ffff",
+             "é" * 4, "日" * 8, "\ud800", "a\udfffb"]
 
 
 def text_pool(rng, extra):
@@ -564,7 +565,8 @@ def leaf_value_pool(o, rng):
         return [True, False]
     if kind == "TextString":
         n = rng.randrange(0, 18)
-        return ["", "a", "".join(rng.choice(TEXT_ALPHABET) for _ in range(n)), "x" * 8, "y" * 9, "z" * 15]
+        return ["", "a", "".join(rng.choice(TEXT_ALPHABET) for _ in range(n)), "x" * 8, "y" * 9, "z" * 15, "é",
+                "日本語", "ключ-8b", "\U0001f511k"]
     if kind == "ByteString":
         n = rng.randrange(0, 18)
         return [b"", b"\x00", bytes(rng.randrange(256) for _ in range(n)), b"\xff" * 8, b"\x01" * 9, b"\x80" * 7]
